@@ -114,6 +114,19 @@ def get_facts(repo="/repo", profile="dev", crate="neurons", quiet=False, slot=""
                 print("[facts] extracted %s (%s) in %.1fs -> %s" % (repo, profile, time.time() - t0, key),
                       file=sys.stderr)
             _prune()
+    # second level: the facts after the (deterministic, source-only) pre-passes, keyed by the pre-pass sources and tables
+    pk = None
+    if normalise is True:
+        import pickle
+        pk = os.path.join(d, "processed-%s.pkl" % _prepass_hash())
+        if os.path.exists(pk):
+            try:
+                with open(pk, "rb") as fh:
+                    f = pickle.load(fh)
+                f["src_root"] = repo
+                return f
+            except Exception:  # noqa: a truncated file from an interrupted run
+                pass
     with open(out) as fh:
         f = json.load(fh)
     f["src_root"] = repo   # the cache is content-addressed (same Cargo files + src/** + driver + profile => same facts)
@@ -126,7 +139,33 @@ def get_facts(repo="/repo", profile="dev", crate="neurons", quiet=False, slot=""
         desugar.run(f)      # inlined helper bodies may contain the same surface forms
         if normalise != "no-names":
             names.normalise(f)
+    if pk is not None:
+        import pickle
+        try:
+            tmpk = pk + ".%d.tmp" % os.getpid()
+            with open(tmpk, "wb") as fh:
+                pickle.dump(f, fh, protocol=pickle.HIGHEST_PROTOCOL)
+            os.replace(tmpk, pk)
+        except OSError:
+            pass
     return f
+
+
+_PREPASS_HASH = []
+
+
+def _prepass_hash():
+    if not _PREPASS_HASH:
+        h = hashlib.sha256()
+        here = os.path.dirname(os.path.abspath(__file__))
+        for n in ("desugar.py", "inline.py", "names.py", "names.json", "pinned_fns.json", "hir.py"):
+            try:
+                with open(os.path.join(here, n), "rb") as fh:
+                    h.update(fh.read())
+            except OSError:
+                h.update(b"-")
+        _PREPASS_HASH.append(h.hexdigest()[:16])
+    return _PREPASS_HASH[0]
 
 
 def _prune(keep=1200):
